@@ -26,6 +26,7 @@ class Walker:
         self.atoms = {}
         self.fresh = 0
         self.assigned = []  # names assigned so far, in order
+        self.stores = []    # (name, line) of every assignment to a local name met on the walk
         self.inline = inline or {}
 
     def atom(self, text):
@@ -89,6 +90,7 @@ class Walker:
                     pc = z3.And(pc, self.cond(st.test))
                 for t in ast.walk(st):
                     if isinstance(t, ast.Name) and isinstance(t.ctx, ast.Store):
+                        self.stores.append((t.id, st.lineno))
                         self._invalidate(t.id)
                 continue
             if isinstance(st, (ast.For, ast.AsyncFor, ast.While)):
